@@ -2009,7 +2009,7 @@ MANIFEST = {
     "design_ref": "DESIGN.md 4/C02",
 }
 FINDINGS = [
-    {"status": "fixed", "key": "accepted:cites-enclosing-item", "commit": "fixes/C02-5.patch",
+    {"status": "fixed", "key": "accepted:cites-enclosing-item", "commit": "e9151fe",
      "what": "check_proof(no_gaps=True) returned |- false for a proof in which ONE ProofItem object (id 2, citing 0) sits inside the "
              "stated block 0 and again at top level: the id guard looked the item up by its id instead of comparing it with the walked position"},
     {"status": "fixed", "key": "accepted:cites-negative-index", "commit": "2a8cdfa",
